@@ -59,6 +59,10 @@ CORRUPT = ("trunc", "trunc", "trunc_all", "trunc_all", "xonsh_ver", "py_ver", "g
 SWITCHES = ("XONSH_CACHE_SCRIPTS", "XONSH_CACHE_EVERYTHING", "scriptcache", "cacheall")
 
 
+# names of the script and of its sibling: spellings that differ only in case, '_' and '.' (what the cache-file naming has to escape)
+SCRIPT_NAMES = ["s", "S", "_s", "__s", "s_", "_S", "s.", "s_.", "aB", "a_b", "a.b", "a_.b", "A_b", "_a_b", "a__b", "tool", "Tool"]
+
+
 class _CachePlan(faultfs.Plan):
     """Fires at the k-th call that concerns the cache entry (read-open of it, write-open, write), whatever else the run opens."""
 
@@ -100,7 +104,7 @@ class C19(Engine):
     }
     rule = (
         "case = settings (4 cache switches, mtime granularity fine/1s/2s, initial bindings of the names the code's parse depends on) x history of 4-30 steps from edit(body, version) / touch / "
-        "restore an older copy (older mtime) / clock step (0, ms, s, h, backwards) / run .xsh script / run .py script (directly or through a symlink to it) / run code string (8 templates incl. near-duplicates, modes exec and single) / switch "
+        "restore an older copy (older mtime) / clock step (0, ms, s, h, backwards) / run .xsh script / run .py script (directly or through a symlink to it) / run an unrelated, older sibling .xsh script next to the first (both names from a pool of spellings differing only in case, _ and .) / run code string (8 templates incl. near-duplicates, modes exec and single) / switch "
         "flips / rebind / entry damage (truncate at one length; truncate at EVERY byte length for .py entries and all header lengths + sampled body lengths for .xsh entries; foreign xonsh version; "
         "foreign Python version; garbage header; 2000-byte header; empty; header only; bit flips and garbage tails that marshal refuses; directory in place; unreadable; cache directory unwritable) / FaultFS failing call at a cache read-open / "
         "write-open / write site of the next run (5 errnos, short write) / writer crash at a site with torn write (forked grandchild). every run is compared with the same source run uncached. "
@@ -118,7 +122,7 @@ class C19(Engine):
         "real": ["codecache.run_script_with_cache / run_code_with_cache / script_cache_check / code_cache_check / _check_cache_versions / update_cache / get_cache_filename / code_cache_name / compile_code / should_use_cache / run_compiled_code", "execer.Execer (real parser and compiler)", "tools.is_writable_file", "real files, marshal, kernel permission checks (uid 65534)"],
         "stub": ["clock: mtimes written with os.utime from the simulated clock", "FaultFS proxies for open/os in xonsh.codecache (failing calls, short writes, crash points)", "subprocess entry points of the session replaced by recorders"],
     }
-    expected_probes = ["valid_hit", "first_run_no_entry", "newer_source_recompiled", "stale_precondition_unmet", "same_tick_edit", "clock_backwards", "older_copy_restored", "truncation_runs", "truncation_complete_enumerations", "foreign_version", "garbage_header", "directory_in_place", "unreadable_entry", "dir_unwritable", "failing_call_fired", "short_write_fired", "crash_fired", "rebuilt_after_damage", "switch_off_run", "code_near_duplicate", "code_mode_switch", "rebind_between_runs", "raising_script", "syntax_error_script", "body_damage_refused_by_marshal", "run_through_symlink"]
+    expected_probes = ["valid_hit", "first_run_no_entry", "newer_source_recompiled", "stale_precondition_unmet", "same_tick_edit", "clock_backwards", "older_copy_restored", "truncation_runs", "truncation_complete_enumerations", "foreign_version", "garbage_header", "directory_in_place", "unreadable_entry", "dir_unwritable", "failing_call_fired", "short_write_fired", "crash_fired", "rebuilt_after_damage", "switch_off_run", "code_near_duplicate", "code_mode_switch", "rebind_between_runs", "raising_script", "syntax_error_script", "body_damage_refused_by_marshal", "run_through_symlink", "sibling_script_run"]
 
     def warmup(self):
         procworld.warm(extra_traced=())
@@ -130,6 +134,8 @@ class C19(Engine):
     # ------------------------------------------------------------------ generation
     def _gen_op(self, rng):
         r = rng.random()
+        if r < 0.035:
+            return {"k": "sib"}
         if r < 0.22:
             return {"k": "run", "t": rng.choice(("xsh", "xsh", "py")), "via": rng.choice((None, None, "link"))}
         if r < 0.36:
@@ -156,6 +162,9 @@ class C19(Engine):
         n = rng.choice((4, 6, 9, 14, 20)) if tier == "quick" else rng.choice((6, 12, 20, 30))
         ops = [self._gen_op(rng) for _ in range(n)]
         ops.append({"k": "run", "t": "xsh"})
+        if rng.random() < 0.5:
+            ops.append({"k": "sib"})
+        names = rng.sample(SCRIPT_NAMES, 2) if rng.random() < 0.7 else ["s", "sib"]
         return {
             "seed": seed,
             "settings": {
@@ -169,6 +178,7 @@ class C19(Engine):
                 "full_trunc": tier != "quick",
             },
             "body0": [rng.randrange(8), rng.randrange(3)],
+            "names": names,
             "ops": ops,
         }
 
@@ -316,6 +326,50 @@ class C19(Engine):
         if cf is None and not strict:
             cf = self.cfmap.get((code, "single" if mode == "exec" else "exec"))  # (entries may be shared between modes)
         return ("code", code), cf, (lambda glb: cc.run_code_with_cache(code, "<string>", ex, glb=glb, loc=None, mode=mode)), mode
+
+    def _sibling_run(self):
+        """A second, unrelated script next to the first one.  Both names come from a pool of spellings that differ only in letter case,
+        '_' and '.' (the characters the cache-file naming escapes).  The sibling is older than every entry and never edited, runs through
+        the same cache and must behave exactly as uncached: two scripts never answer for each other."""
+        cc, ex, path = self.cc, self.XSH.execer, self.sib
+        if not os.path.lexists(path):
+            with open(path, "w") as f:
+                f.write('SIB = 77\nprint("sibling script", SIB)\n')
+            os.utime(path, (T0 - 5000.0, T0 - 5000.0))
+
+        def runner(glb):
+            return cc.run_script_with_cache(path, ex, glb=glb, loc=None, mode="exec")
+
+        cf = cc.get_cache_filename(path, code=False)
+        pre = self._stat(cf)
+        self._switches()
+        obs = self._observe(runner)
+        post = self._stat(cf)
+        if post is not None and post != pre:
+            try:
+                m = self._now()
+                os.utime(cf, (m, m))
+            except OSError:
+                pass
+        self._switches(on=False)
+        ref = self._observe(runner)
+        self._switches()
+        self.nruns += 1
+        self.probes["sibling_script_run"] += 1
+        self.states.add(("sib", pre is not None, self._cache_on("exec"), obs == ref))
+        self.trace.append(("sibling run", pre is not None, hashlib.sha1(repr(sorted(obs.items())).encode()).hexdigest()[:8]))
+        if obs != ref:
+            diff = [k for k in obs if obs[k] != ref[k]]
+            self._viol(
+                "same.as_uncached",
+                f"sibling script {os.path.basename(path)!r} (next to {os.path.basename(self.src['xsh'])!r}, older than every entry, never edited) differs from its uncached run in {diff}: "
+                f"cached={ {k: obs[k] for k in diff} } uncached={ {k: ref[k] for k in diff} }",
+                kind="sib",
+                state="sibling",
+                damage=None,
+                fault=None,
+                raised=bool(obs["raised"]),
+            )
 
     def _run(self, kind, i=0, v=1, mode="exec", plan=None, label=None):
         key, cf, runner, mode = self._target(kind, i, v, mode)
@@ -605,7 +659,9 @@ class C19(Engine):
         os.makedirs(os.path.join(top, "src"))
         env["XONSH_DATA_DIR"] = D
         env["XONSH_DEBUG"] = 0
-        self.src = {"xsh": os.path.join(top, "src", "s.xsh"), "py": os.path.join(top, "src", "t.py")}
+        names = case.get("names") or ["s", "sib"]  # (replay files written before the sibling script existed carry no names)
+        self.src = {"xsh": os.path.join(top, "src", names[0] + ".xsh"), "py": os.path.join(top, "src", "t.py")}
+        self.sib = os.path.join(top, "src", names[1] + ".xsh")
         self.content = {}
         self.entries = {}
         self.cfmap = {}
@@ -641,6 +697,8 @@ class C19(Engine):
                         self._run(op["t"], label="run via symlink" if self.via else None)
                     finally:
                         self.via = None
+                elif k == "sib":
+                    self._sibling_run()
                 elif k == "code":
                     code = CODES[op["i"]].format(v=op["v"])
                     if any(c != code and c.strip().replace(" ", "") == code.strip().replace(" ", "") for c in last_code):
